@@ -316,9 +316,9 @@ func c20Run(r *vlib.Run, c *c20Case, dir string) {
 	}
 	select {
 	case <-done:
-	case <-time.After(10 * time.Second):
+	case <-time.After(40 * time.Second):
 		// release everything so nothing leaks, then report
-		r.Violation(c.ID, "serve-hung", "Serve had not returned 10 s after the stimulus", det())
+		r.Violation(c.ID, "serve-hung", "Serve had not returned 40 s after the stimulus", det())
 		for _, st := range sts {
 			func() { defer func() { _ = recover() }(); close(st.stopGate) }()
 		}
